@@ -472,9 +472,11 @@ impl Property for C11 {
             script.truncate(i);
             out.add("script_cut_at_window", 1);
         }
-        if sc.no_final_newline && script.last().map_or(false, |l| l.is_empty()) {
-            // an empty last line without terminator is no line at all
+        let mut no_final_newline = sc.no_final_newline;
+        if no_final_newline && script.last().map_or(false, |l| l.is_empty()) {
+            // an empty last line without terminator is no line at all: the line before it ends with its terminator
             script.pop();
+            no_final_newline = false;
         }
         let dry = drive(&script, &parsed, &path, &file, b"", None, 4000);
         // the real debugger
@@ -484,7 +486,7 @@ impl Property for C11 {
         let mut plan = sc.plan.clone();
         plan.tick_budget = dry.ticks + 200;
         plan.sigint_at.retain(|&x| (x as usize) <= script.len());
-        let stdin = script_bytes(&script, sc.no_final_newline, sc.knob("crlf") == 1);
+        let stdin = script_bytes(&script, no_final_newline, sc.knob("crlf") == 1);
         let (ending, _, world) = sim::run_process(plan, stdin, || {
             use hyeong::util::option::HyeongOption;
             use termcolor::{ColorChoice, StandardStream};
